@@ -110,13 +110,38 @@ Theorem C20_win_contract :
   forall (isdir : bytes -> bool) (walk : bytes -> tree) (sub : path -> tree) (recursive : bool) (root : bytes),
   root <> [] -> last_is_sep root = false ->
   (forall p, walk (abspath root p) = sub p) -> (forall p, wf_tree (sub p) = true) ->
-  forall (before : fs) (o : op), op_names_ok o = true -> op_ok before o = true ->
+  forall (before : fs) (o : op) (last : bytes), op_names_ok o = true -> op_ok before o = true ->
   let after := apply_op before o in
   (forall p, isdir (abspath root p) = fs_isdir after p) ->
-  queue_events isdir walk recursive root (map render_native (win_kernel o))
-  = (map (render root) (win_contract sub recursive after o), false).
+  queue_events isdir walk recursive root last (map render_native (win_kernel o))
+  = (map (render root) (win_contract sub recursive after o), state_after root last o, false).
 Proof. exact win_contract_ok. Qed.
 Print Assumptions C20_win_contract.
+
+(* Arbitrary cuts (repaired code, fixes/F13): however the notification stream is cut into reads -
+   in particular between RENAMED_OLD_NAME and RENAMED_NEW_NAME - the successive calls of queue_events
+   queue together exactly what one call on the whole stream queues and leave the same pending name. *)
+Theorem C20_win_cuts :
+  forall isdir walk recursive root (reads : list (list native)) (last : bytes),
+  queue_events_seq isdir walk recursive root last reads
+  = queue_events isdir walk recursive root last (concat reads).
+Proof. exact queue_events_cuts. Qed.
+Print Assumptions C20_win_cuts.
+
+(* Hence the contract holds for every cut of one operation's notifications. *)
+Theorem C20_win_contract_cut :
+  forall (isdir : bytes -> bool) (walk : bytes -> tree) (sub : path -> tree) (recursive : bool) (root : bytes),
+  root <> [] -> last_is_sep root = false ->
+  (forall p, walk (abspath root p) = sub p) -> (forall p, wf_tree (sub p) = true) ->
+  forall (before : fs) (o : op) (last : bytes) (reads : list (list native)),
+  op_names_ok o = true -> op_ok before o = true ->
+  let after := apply_op before o in
+  (forall p, isdir (abspath root p) = fs_isdir after p) ->
+  concat reads = map render_native (win_kernel o) ->
+  queue_events_seq isdir walk recursive root last reads
+  = (map (render root) (win_contract sub recursive after o), state_after root last o, false).
+Proof. exact win_contract_cut_ok. Qed.
+Print Assumptions C20_win_contract_cut.
 
 (* Replay, full statement: one operation per batch, the walked tree [sub] lists what lies below the
    target; replaying the contract on the view of the tree before gives the view after (as a set). *)
@@ -143,17 +168,20 @@ Print Assumptions C20_win_replay_partial.
 Theorem C20_win_removed_flavour_refuted :
   let before := [Entry [na] KDir 5%N] in
   op_ok before (ORmdir [na]) = true /\ fs_isdir before [na] = true /\
-  queue_events (fun _ => false) (fun _ => Node [] []) true r_ (map render_native (win_kernel (ORmdir [na])))
-  = ([Deleted KFile (abspath r_ [na])], false).
+  queue_events (fun _ => false) (fun _ => Node [] []) true r_ [] (map render_native (win_kernel (ORmdir [na])))
+  = ([Deleted KFile (abspath r_ [na])], [], false).
 Proof. exact win_removed_flavour_refuted. Qed.
 Print Assumptions C20_win_removed_flavour_refuted.
 
-(* F13 (proposed known finding): the rename pair cut across two calls loses the source path. *)
+(* F13, record of the pinned code (pending name in a local variable, "" at every call): the rename
+   pair cut across two calls loses the source path; the repaired code delivers both paths. *)
 Theorem C20_win_cut_refuted :
   let ns := map render_native (win_kernel (ORename [na] [nb])) in
-  let q := queue_events (fun _ => false) (fun _ => Node [] []) true r_ in
+  let q := queue_events_pinned (fun _ => false) (fun _ => Node [] []) true r_ in
   q ns = ([Moved KFile (abspath r_ [na]) (abspath r_ [nb]) false], false) /\
-  fst (q (firstn 1 ns)) ++ fst (q (skipn 1 ns)) = [Moved KFile [] (abspath r_ [nb]) false].
+  fst (q (firstn 1 ns)) ++ fst (q (skipn 1 ns)) = [Moved KFile [] (abspath r_ [nb]) false] /\
+  fst (fst (queue_events_seq (fun _ => false) (fun _ => Node [] []) true r_ [] [firstn 1 ns; skipn 1 ns]))
+  = [Moved KFile (abspath r_ [na]) (abspath r_ [nb]) false].
 Proof. exact win_cut_refuted. Qed.
 Print Assumptions C20_win_cut_refuted.
 
@@ -164,9 +192,11 @@ Example C20_win_nonvacuous :
   let o := ORename [na] [c_] in
   let t := Node [(nb, Node [] [c_])] [na] in
   op_ok before o = true /\ op_names_ok o = true /\ wf_tree t = true /\
-  queue_events (fun p => beqb p (abspath r_ [c_])) (fun _ => t) true r_ (map render_native (win_kernel o))
+  queue_events_seq (fun p => beqb p (abspath r_ [c_])) (fun _ => t) true r_ []
+                   [firstn 1 (map render_native (win_kernel o)); skipn 1 (map render_native (win_kernel o))]
   = (map (render r_) [AMoved KDir [na] [c_] false; AMoved KDir [na; nb] [c_; nb] true;
-                      AMoved KFile [na; na] [c_; na] true; AMoved KFile [na; nb; c_] [c_; nb; c_] true], false).
+                      AMoved KFile [na; na] [c_; na] true; AMoved KFile [na; nb; c_] [c_; nb; c_] true],
+     abspath r_ [na], false).
 Proof. vm_compute. repeat split. Qed.
 End WinEmit.
 
